@@ -168,7 +168,7 @@ fn parse_memo1(out: &str) -> Option<(R, RunInfo)> {
     Some((r, RunInfo { c, version_pushes: n[6] as usize }))
 }
 
-fn strip_keywords_directives(text: &str) -> String {
+pub fn strip_keywords_directives(text: &str) -> String {
     let mut s = text.to_string();
     for pat in ["`begin_keywords", "`end_keywords"] {
         while let Some(i) = s.find(pat) {
